@@ -48,8 +48,8 @@ Proof.
   induction h as [|o h IH]; intros st i D Sh; [reflexivity|].
   rewrite events_cons, iface_evs_app.
   destruct (dead_step c st o i D) as [D' _].
-  destruct o as [k hs he|lk|j t sh|j]; cbn [step] in *.
-  - rewrite (iface_request_events i _ (app_request_events c st k hs he)). apply IH; assumption.
+  destruct o as [k hs he rt|lk|j t sh|j]; cbn [step] in *.
+  - rewrite (iface_request_events i _ (app_request_events c st k hs he rt)). apply IH; assumption.
   - rewrite (iface_request_events i _ (lib_request_events c st lk)). apply IH; assumption.
   - cbn [shaped] in Sh. destruct Sh as [Sh1 Sh2].
     destruct (N.eq_dec i j) as [<-|Hij].
@@ -72,7 +72,7 @@ Section PendingPing.
   Definition pendingP (st : state) : Prop :=
     (i < next st)%N /\
     lookup i (app st) = None /\
-    lookup i (regs st L) = Some (mkentry r s e) /\
+    lookup i (regs st L) = Some (mkentry r s e no_retry) /\
     forall l, l <> L -> lookup i (regs st l) = None.
 
   Definition ping_events (t : ityp) : list event :=
@@ -93,8 +93,8 @@ Section PendingPing.
     exists (set_reg st L (remove i (regs st L))). split.
     - unfold try_layer, consumes. rewrite Hstrict, Ht, Hr. cbn [ehs ehe]. unfold ping_events, fire.
       cbn [ereq rorigin r].
-      destruct t; try discriminate; [destruct s|destruct e]; try reflexivity;
-        cbn [typ_of]; rewrite to_interface_unreg by exact Ha; reflexivity.
+      destruct t; try discriminate; [destruct s|destruct e]; destruct (late_delete c);
+        try reflexivity; cbn [typ_of]; rewrite to_interface_unreg by exact Ha; reflexivity.
     - split; [exact Hlt|]. split; [exact Ha|].
       intro l. rewrite regs_set_reg. destruct (layer_eqb L l) eqn:E.
       + rewrite lookup_remove, N.eqb_refl. reflexivity.
@@ -161,8 +161,8 @@ Section PendingPing.
   Proof.
     induction h as [|o h IH]; intros st P Sh; [reflexivity|].
     rewrite events_cons, iface_evs_app.
-    destruct o as [k' hs' he'|lk'|j t sh|j]; cbn [step].
-    - rewrite (iface_request_events i _ (app_request_events c st k' hs' he')).
+    destruct o as [k' hs' he' rt'|lk'|j t sh|j]; cbn [step].
+    - rewrite (iface_request_events i _ (app_request_events c st k' hs' he' rt')).
       cbn [app first_reply]. apply IH; [|exact Sh].
       eapply pendingP_grows; [apply app_request_grows|exact P].
     - rewrite (iface_request_events i _ (lib_request_events c st lk')).
